@@ -282,9 +282,17 @@ theorem emitTag_sim (pol : Pol) (tree : Tree) (hpt : PolTree pol tree) (m : Mach
   rw [hf]
   unfold Tok.emitCurrentTag Tok.currentTag
   simp only [hnamed, to, takeTag, currentTag, emit, Tok.setState, Tok.emit] at hfl ⊢
-  rw [hpt.onTag out', ← hk, ← hn, ← hsc]
+  rw [← hk, ← hn, ← hsc]
   generalize htag : Tag.mk m.tagKind m.tagName m.tagSelfClosing (dedupAttrs t.attrs)
     ((dedupAttrs t.attrs).length != t.attrs.length) = tag
+  -- the history the specification hands to the tree construction stage: the tag, then everything before
+  have hes : ∀ (x y : Tok), x.out = Emit.tag tag :: t.out → y.out = Emit.tag tag :: t.out →
+      ∀ (c : Prop) [Decidable c], (if c then x else y).out = Emit.tag tag :: flat out' := by
+    intro x y hx hy c _
+    split
+    · rw [hx, hout, hfl]
+    · rw [hy, hout, hfl]
+  rw [hes _ _ rfl rfl, hpt.onTag out']
   have hnp := hpt.noPause out' tag
   have hkind : tag.kind = m.tagKind := by rw [← htag]
   have hname : tag.name = m.tagName := by rw [← htag]
